@@ -30,6 +30,11 @@ def test_unit_tables_are_exact():
     assert kin.to_si('accel', 9.81, 'm/ms^2') == hp.mpf(9.81) * 10**6
     assert close(kin.to_si('energy', 1.0, 'meV'), 1.602176634e-22, 1e-12)
     assert close(kin.to_si('energy', 1.0, 'ueV'), 1.602176634e-25, 1e-12)
+    assert close(kin.to_si('energy', 2.0, 'keV'), 3.204353268e-16, 1e-12)
+    assert kin.to_si('energy', 2.5, 'J') == hp.mpf(2.5)
+    assert kin.to_si('energy', 3.0, 'meV') == hp.energy_si(3.0, 'meV')
+    assert kin.to_si('length', 2.0, 'pm') == hp.mpf(2) / 10**12
+    assert kin.to_si('inv_length', 2.0, '1/um') == hp.mpf(2) * 10**6
     assert close(kin.to_si('angle', 180.0, 'deg'), math.pi, 1e-15)
     assert kin.from_si('length', kin.to_si('length', 7.0, 'km'), 'km') == 7
     assert kin.inv_unit('nm') == '1/nm'
